@@ -53,3 +53,17 @@ Theorem C06_disjoint_boxes :
   boxes_disjoint (f_sbbox (fill_queue A B op)) (f_cbbox (fill_queue A B op)) = true ->
   boolean_operation cfg fuel A B op = Ok (trivial_result A B op).
 Proof. exact disjoint_boxes_trivial. Qed.
+
+From GB Require Import Fields FieldsProofs TableLaws.
+
+(** commutativity at the level of the selection tables: for intersection, union and xor the
+    entry of a sub-segment is the same in the call with the operands exchanged, for every flag
+    assignment, edge type and operand role *)
+Theorem C06_tables_symmetric :
+  forall (N : Num) (cfg : config) (e e' : event N) (o : operation),
+  o <> Difference -> swapped e e' -> table cfg e' o = table cfg e o.
+Proof. exact tables_symmetric. Qed.
+
+Theorem C06_ops_commute :
+  forall (o : operation) (a b : bool), o <> Difference -> sem o a b = sem o b a.
+Proof. exact ops_commute. Qed.
